@@ -1459,12 +1459,14 @@ def finish(ctx, plan, viol, known, wall):
             print("  %s %s subject=%s fields=%s frame=%s %s" % (stage, kind, v["j"].get("subj"), v["j"].get("fields"), v["j"].get("frame"), v["j"].get("msg", "")[:200]))
         k += 1
     st = ctx.stats
+    for note, n in sorted(st.get("ext_notes", {}).items()):
+        print("NOTE (extended coverage, not part of %s): %s (%d events)" % (ctx.pid, note, n))
     ev = {"property_id": ctx.pid, "tier": ctx.tier, "seed": ctx.seed, "level": "model_checking",
           "coverage": {"states": st["states"], "transitions": st["transitions"],
                        "traces_validated_against_impl": st["events"],
                        "samples": ctx.samples or [{"note": "no events"}],
                        "replay_cases": st["cases_replayed"], "events_validated": st["events"],
-                       "foreign_mismatches": st["foreign_mismatches"], "left_envelope": st["envelope"],
+                       "foreign_mismatches": st["foreign_mismatches"], "extended_coverage_notes": st.get("ext_notes", {}), "left_envelope": st["envelope"],
                        "known_findings_hit": dict(known), "tlc_runs": st["tlc_runs"], "stages": st["stages"],
                        "exhaustive": False,
                        "explanation": "states/transitions: TLC on the bounded one-step models; every explored case replayed on the real code and every recorded event validated by TLC against the specification"},
